@@ -82,23 +82,33 @@ func serve(args []string) {
 		defer os.RemoveAll(keyDir)
 	}
 	sshPort := 0
-	s, err := hx.StartServer(addr, func(c *v1.ServerConfig) {
-		if keyDir != "" {
-			sshPort = hx.FreePort(addr)
-			c.SSHTunnelGateway.BindPort = sshPort
-			c.SSHTunnelGateway.AutoGenPrivateKeyPath = filepath.Join(keyDir, "host_key")
+	var s *hx.Server
+	var err error
+	// the ports are probed and bound a moment later: another process on the machine can take one in between
+	// (seen once in several hundred parallel runs); a start that fails with "address already in use" is retried
+	// with freshly probed ports
+	for attempt := 0; attempt < 4; attempt++ {
+		s, err = hx.StartServer(addr, func(c *v1.ServerConfig) {
+			if keyDir != "" {
+				sshPort = hx.FreePort(addr)
+				c.SSHTunnelGateway.BindPort = sshPort
+				c.SSHTunnelGateway.AutoGenPrivateKeyPath = filepath.Join(keyDir, "host_key")
+			}
+			c.Transport.MaxPoolCount = maxPool
+			c.VhostHTTPPort = hx.FreePort(addr)
+			c.SubDomainHost = "sub.test"
+			c.TCPMuxHTTPConnectPort = hx.FreePort(addr)
+			c.VhostHTTPSPort = hx.FreePort(addr)
+			c.UserConnTimeout = 2
+			c.AllowPorts = nil
+			// the dashboard switches the in-memory statistics (shared maps updated per user connection) on
+			c.WebServer.Addr = addr
+			c.WebServer.Port = hx.FreePort(addr)
+		})
+		if err == nil || !strings.Contains(err.Error(), "address already in use") {
+			break
 		}
-		c.Transport.MaxPoolCount = maxPool
-		c.VhostHTTPPort = hx.FreePort(addr)
-		c.SubDomainHost = "sub.test"
-		c.TCPMuxHTTPConnectPort = hx.FreePort(addr)
-		c.VhostHTTPSPort = hx.FreePort(addr)
-		c.UserConnTimeout = 2
-		c.AllowPorts = nil
-		// the dashboard switches the in-memory statistics (shared maps updated per user connection) on
-		c.WebServer.Addr = addr
-		c.WebServer.Port = hx.FreePort(addr)
-	})
+	}
 	if err != nil {
 		fmt.Println("ERR", err)
 		if keyDir != "" {
